@@ -19,7 +19,8 @@ def run(ck):
         'Static rules for the multi-opening argument: (R1) multi_open (write→read) = multi_prepare = in-circuit multi_prepare as transcript schedules '
         '(x1, x2, f commitment, x3, one evaluation per point set, x4, pi); (R2) both copies of construct_intermediate_sets have a reachable duplicate-query '
         'error exit guarded by the membership test, and all three callers propagate it with `?`; (R3) every value read by the verifier (f commitment, '
-        'evaluations at x3, pi) flows into the returned guard. Completeness/soundness of the algebra is not decided.')
+        'evaluations at x3, pi) flows into the returned guard; (R4) commitment identity compares piece counts (no zip-truncated equality); (R5) point sets are '
+        'indexed by position, never by a global point index (repaired defect). Completeness/soundness of the algebra is not decided.')
     nrm = c01.make_norm()
     ck.rule('C14.R1', 'three-way schedule duality of the multi-opening')
     trees = {}
